@@ -164,11 +164,11 @@ theorem cone_eq_trans (k : Nat) (ux uy vx vy wx wy : Int)
 
 theorem compareAngle_eq_neg_one (o p q : Pt) :
     compareAngle o p q = -1 ↔ (quadrant o p < quadrant o q ∨ (quadrant o p = quadrant o q ∧ det o q p < 0)) := by
-  rw [compareAngle_nf]; split_ifs <;> constructor <;> intro h <;> omega
+  rw [compareAngle_nf]; split_ifs <;> constructor <;> intro h <;> first | omega | exact h.elim
 
 theorem compareAngle_eq_zero (o p q : Pt) :
     compareAngle o p q = 0 ↔ (quadrant o p = quadrant o q ∧ det o q p = 0) := by
-  rw [compareAngle_nf]; split_ifs <;> constructor <;> intro h <;> omega
+  rw [compareAngle_nf]; split_ifs <;> constructor <;> intro h <;> first | omega | exact h.elim
 
 theorem det_vec (o p q : Pt) : det o p q = (p.x - o.x) * (q.y - o.y) - (p.y - o.y) * (q.x - o.x) := rfl
 
@@ -187,7 +187,6 @@ theorem compareAngle_trans (o p q r : Pt) (hp : p ≠ o) (hq : q ≠ o) (hr : r 
     have fq := qf_pos _ _ hq
     have fr := qf_pos _ _ hr
     unfold quadrant at e1 e2
-    rw [← e1] at fr; rw [e1] at fr
     have fp' : 0 < qf (quadrantD (q.x - o.x) (q.y - o.y)) (p.x - o.x) (p.y - o.y) := by rw [← e1]; exact fp
     have fr' : 0 < qf (quadrantD (q.x - o.x) (q.y - o.y)) (r.x - o.x) (r.y - o.y) := by rw [e2]; exact fr
     rw [det_vec] at d1 d2 ⊢
@@ -209,5 +208,401 @@ theorem compareAngle_eq_trans (o p q r : Pt) (hq : q ≠ o)
   have := cone_eq_trans _ (p.x - o.x) (p.y - o.y) (q.x - o.x) (q.y - o.y) (r.x - o.x) (r.y - o.y) fq
     (by linarith) (by linarith)
   linarith
+
+/-! ### weak transitivity (all six mixed forms) -/
+
+theorem compareAngle_lt_eq (o p q r : Pt) (hp : p ≠ o) (hq : q ≠ o) (hr : r ≠ o)
+    (h1 : compareAngle o p q = -1) (h2 : compareAngle o q r = 0) : compareAngle o p r = -1 := by
+  rcases compareAngle_range o p r with h | h | h
+  · exact h
+  · have h3 : compareAngle o r p = 0 := by rw [compareAngle_antisymm o p r]; omega
+    have h4 := compareAngle_eq_trans o q r p hr h2 h3
+    have := compareAngle_antisymm o p q; omega
+  · have h3 : compareAngle o r p = -1 := by rw [compareAngle_antisymm o p r]; omega
+    have h4 := compareAngle_trans o r p q hr hp hq h3 h1
+    have := compareAngle_antisymm o q r; omega
+
+theorem compareAngle_eq_lt (o p q r : Pt) (hp : p ≠ o) (hq : q ≠ o) (hr : r ≠ o)
+    (h1 : compareAngle o p q = 0) (h2 : compareAngle o q r = -1) : compareAngle o p r = -1 := by
+  rcases compareAngle_range o p r with h | h | h
+  · exact h
+  · have h3 : compareAngle o q p = 0 := by rw [compareAngle_antisymm o p q]; omega
+    have h4 := compareAngle_eq_trans o q p r hp h3 h
+    omega
+  · have h3 : compareAngle o r p = -1 := by rw [compareAngle_antisymm o p r]; omega
+    have h4 := compareAngle_trans o q r p hq hr hp h2 h3
+    have := compareAngle_antisymm o p q; omega
+
+/-- all mixed transitivity facts about three directions, in the form used by the table lemmas -/
+theorem compareAngle_compat (o p q r : Pt) (hp : p ≠ o) (hq : q ≠ o) (hr : r ≠ o) :
+    (compareAngle o p q ≤ 0 → compareAngle o q r ≤ 0 → compareAngle o p r ≤ 0) ∧
+    (compareAngle o p q < 0 → compareAngle o q r ≤ 0 → compareAngle o p r < 0) ∧
+    (compareAngle o p q ≤ 0 → compareAngle o q r < 0 → compareAngle o p r < 0) ∧
+    (compareAngle o p q ≥ 0 → compareAngle o q r ≥ 0 → compareAngle o p r ≥ 0) ∧
+    (compareAngle o p q > 0 → compareAngle o q r ≥ 0 → compareAngle o p r > 0) ∧
+    (compareAngle o p q ≥ 0 → compareAngle o q r > 0 → compareAngle o p r > 0) := by
+  have r1 := compareAngle_range o p q
+  have r2 := compareAngle_range o q r
+  have r3 := compareAngle_range o p r
+  have a1 := compareAngle_antisymm o p q
+  have a2 := compareAngle_antisymm o q r
+  have a3 := compareAngle_antisymm o p r
+  have t1 := compareAngle_trans o p q r hp hq hr
+  have t2 := compareAngle_lt_eq o p q r hp hq hr
+  have t3 := compareAngle_eq_lt o p q r hp hq hr
+  have t4 := compareAngle_eq_trans o p q r hq
+  have u1 := compareAngle_trans o r q p hr hq hp
+  have u2 := compareAngle_lt_eq o r q p hr hq hp
+  have u3 := compareAngle_eq_lt o r q p hr hq hp
+  have key : (compareAngle o p q ≤ 0 ∧ compareAngle o q r ≤ 0 → compareAngle o p r ≤ 0 ∧
+        (compareAngle o p q < 0 ∨ compareAngle o q r < 0 → compareAngle o p r < 0)) ∧
+      (compareAngle o p q ≥ 0 ∧ compareAngle o q r ≥ 0 → compareAngle o p r ≥ 0 ∧
+        (compareAngle o p q > 0 ∨ compareAngle o q r > 0 → compareAngle o p r > 0)) := by
+    rcases r1 with r1 | r1 | r1 <;> rcases r2 with r2 | r2 | r2
+    · have k := t1 r1 r2; clear t1 t2 t3 t4 u1 u2 u3; omega
+    · have k := t2 r1 r2; clear t1 t2 t3 t4 u1 u2 u3; omega
+    · clear t1 t2 t3 t4 u1 u2 u3; omega
+    · have k := t3 r1 r2; clear t1 t2 t3 t4 u1 u2 u3; omega
+    · have k := t4 r1 r2; clear t1 t2 t3 t4 u1 u2 u3; omega
+    · have k := u2 (by omega) (by omega); clear t1 t2 t3 t4 u1 u2 u3; omega
+    · clear t1 t2 t3 t4 u1 u2 u3; omega
+    · have k := u3 (by omega) (by omega); clear t1 t2 t3 t4 u1 u2 u3; omega
+    · have k := u1 (by omega) (by omega); clear t1 t2 t3 t4 u1 u2 u3; omega
+  clear t1 t2 t3 t4 u1 u2 u3 r1 r2 r3 a1 a2 a3
+  refine ⟨?_, ?_, ?_, ?_, ?_, ?_⟩ <;> intro h1 h2 <;> omega
+
+/-! ### sign tables -/
+
+inductive S3 where
+  | neg | zero | pos
+deriving DecidableEq, Repr
+
+namespace S3
+def ofInt (c : Int) : S3 := if c < 0 then .neg else if c = 0 then .zero else .pos
+def flip : S3 → S3
+  | .neg => .pos | .zero => .zero | .pos => .neg
+def le0 : S3 → Bool | .pos => false | _ => true
+def ge0 : S3 → Bool | .neg => false | _ => true
+def all (f : S3 → Bool) : Bool := f .neg && f .zero && f .pos
+theorem all_spec {f : S3 → Bool} (h : all f = true) (s : S3) : f s = true := by
+  unfold all at h; simp only [Bool.and_eq_true] at h; cases s <;> simp [h]
+/-- `ab = cmp a b`, `bc = cmp b c`, `ac = cmp a c` are compatible with a strict weak order -/
+def compat (ab bc ac : S3) : Bool :=
+  (!(ab.le0 && bc.le0) || ac.le0) && (!(ab == .neg && bc.le0) || ac == .neg) && (!(ab.le0 && bc == .neg) || ac == .neg) &&
+  (!(ab.ge0 && bc.ge0) || ac.ge0) && (!(ab == .pos && bc.ge0) || ac == .pos) && (!(ab.ge0 && bc == .pos) || ac == .pos)
+end S3
+
+theorem ofInt_neg_one : S3.ofInt (-1) = .neg := rfl
+theorem ofInt_zero : S3.ofInt 0 = .zero := rfl
+theorem ofInt_one : S3.ofInt 1 = .pos := rfl
+
+theorem compat_actual (o p q r : Pt) (hp : p ≠ o) (hq : q ≠ o) (hr : r ≠ o) :
+    S3.compat (S3.ofInt (compareAngle o p q)) (S3.ofInt (compareAngle o q r)) (S3.ofInt (compareAngle o p r)) = true := by
+  have h := compareAngle_compat o p q r hp hq hr
+  rcases compareAngle_range o p q with r1 | r1 | r1 <;> rcases compareAngle_range o q r with r2 | r2 | r2 <;>
+    rcases compareAngle_range o p r with r3 | r3 | r3 <;> simp only [r1, r2, r3] at h ⊢ <;>
+    first | rfl | (exfalso; omega)
+
+theorem ofInt_flip (c : Int) (h : c = -1 ∨ c = 0 ∨ c = 1) : S3.ofInt (-c) = (S3.ofInt c).flip := by
+  rcases h with h | h | h <;> subst h <;> rfl
+
+/-- `compareBetween` on signs -/
+def cbT (c0 c1 : S3) : S3 :=
+  if c0 = .zero then .zero else if c1 = .zero then .zero else if c0 = .pos ∧ c1 = .neg then .pos else .neg
+
+/-- the part of `isCrossing` after `aLo`/`aHi` are chosen, on signs (`l0 = cmp b0 aLo`, `h0 = cmp b0 aHi`, ...) -/
+def crossBodyT (l0 h0 l1 h1 : S3) : Bool :=
+  let c0 := cbT l0 h0
+  if c0 = .zero then false
+  else
+    let c1 := cbT l1 h1
+    if c1 = .zero then false else decide (c0 ≠ c1)
+
+/-- `isCrossing` as a function of the signs `x = cmp a0 a1`, `p0 = cmp b0 a0`, `p1 = cmp b0 a1`, `q0 = cmp b1 a0`, `q1 = cmp b1 a1` -/
+def crossT (x p0 p1 q0 q1 : S3) : Bool :=
+  if x = .pos then crossBodyT p1 p0 q1 q0 else crossBodyT p0 p1 q0 q1
+
+/-- `cyc o a0 b a1` on signs (`x = cmp a0 a1`, `p0 = cmp b a0`, `p1 = cmp b a1`) -/
+def cyc01T (x p0 p1 : S3) : Bool :=
+  (decide (p0 = .pos) && decide (p1 = .neg)) || (decide (p1 = .neg) && decide (x = .pos)) || (decide (x = .pos) && decide (p0 = .pos))
+/-- `cyc o a1 b a0` on signs -/
+def cyc10T (x p0 p1 : S3) : Bool :=
+  (decide (p1 = .pos) && decide (p0 = .neg)) || (decide (p0 = .neg) && decide (x = .neg)) || (decide (x = .neg) && decide (p1 = .pos))
+
+def crossSpecT (x p0 p1 q0 q1 : S3) : Bool :=
+  (cyc01T x p0 p1 && cyc10T x q0 q1) || (cyc10T x p0 p1 && cyc01T x q0 q1)
+
+/-- all the compatibility facts available for `b` against the corner `(a0, a1)` -/
+def compatB (x p0 p1 : S3) : Bool :=
+  S3.compat p0 x p1 && S3.compat p1 x.flip p0 && S3.compat p0.flip p1 x
+
+/-- the finite heart of `isCrossing_iff`: on every sign pattern compatible with a strict weak order the C++ decision
+table equals the wedge specification -/
+theorem crossT_eq_spec : S3.all (fun x => S3.all fun p0 => S3.all fun p1 => S3.all fun q0 => S3.all fun q1 =>
+    !(compatB x p0 p1 && compatB x q0 q1) || (crossT x p0 p1 q0 q1 == crossSpecT x p0 p1 q0 q1)) = true := by
+  decide
+
+/-! ### the C++ functions as sign tables -/
+
+theorem isAngleGreater_eq (o p q : Pt) : isAngleGreater o p q = decide (compareAngle o p q = 1) := by
+  have := isAngleGreater_iff o p q
+  by_cases h : compareAngle o p q = 1
+  · simp [h, this.mpr h]
+  · cases hb : isAngleGreater o p q
+    · simp [h]
+    · exact absurd (this.mp hb) h
+
+/-- the part of `isCrossing` after `aLo`/`aHi` are chosen -/
+def crossBody (n aLo aHi b0 b1 : Pt) : Bool :=
+  let compBetween0 := compareBetween n b0 aLo aHi
+  if compBetween0 == 0 then false
+  else
+    let compBetween1 := compareBetween n b1 aLo aHi
+    if compBetween1 == 0 then false
+    else compBetween0 != compBetween1
+
+theorem isCrossing_unfold (n a0 a1 b0 b1 : Pt) :
+    isCrossing n a0 a1 b0 b1 = if isAngleGreater n a0 a1 then crossBody n a1 a0 b0 b1 else crossBody n a0 a1 b0 b1 := by
+  unfold isCrossing crossBody
+  cases isAngleGreater n a0 a1 <;> rfl
+
+theorem crossBody_eq (n lo hi b0 b1 : Pt) :
+    crossBody n lo hi b0 b1 = crossBodyT (S3.ofInt (compareAngle n b0 lo)) (S3.ofInt (compareAngle n b0 hi))
+      (S3.ofInt (compareAngle n b1 lo)) (S3.ofInt (compareAngle n b1 hi)) := by
+  unfold crossBody compareBetween
+  have r1 := compareAngle_range n b0 lo
+  have r2 := compareAngle_range n b0 hi
+  have r3 := compareAngle_range n b1 lo
+  have r4 := compareAngle_range n b1 hi
+  generalize compareAngle n b0 lo = p0 at *
+  generalize compareAngle n b0 hi = p1 at *
+  generalize compareAngle n b1 lo = q0 at *
+  generalize compareAngle n b1 hi = q1 at *
+  rcases r1 with h | h | h <;> subst h <;>
+    rcases r2 with h | h | h <;> subst h <;> rcases r3 with h | h | h <;> subst h <;>
+    rcases r4 with h | h | h <;> subst h <;> rfl
+
+theorem isCrossing_eq_crossT (n a0 a1 b0 b1 : Pt) :
+    isCrossing n a0 a1 b0 b1 =
+      crossT (S3.ofInt (compareAngle n a0 a1)) (S3.ofInt (compareAngle n b0 a0)) (S3.ofInt (compareAngle n b0 a1))
+        (S3.ofInt (compareAngle n b1 a0)) (S3.ofInt (compareAngle n b1 a1)) := by
+  rw [isCrossing_unfold, isAngleGreater_eq, crossBody_eq, crossBody_eq]
+  unfold crossT
+  rcases compareAngle_range n a0 a1 with h | h | h <;> rw [h] <;> rfl
+
+theorem angLt_eq (o p q : Pt) (hp : p ≠ o) (hq : q ≠ o) : angLt o p q = decide (compareAngle o p q = -1) := by
+  have := compareAngle_lt_iff o p q hp hq
+  by_cases h : compareAngle o p q = -1
+  · simp [h, this.mp h]
+  · cases hb : angLt o p q
+    · simp [h]
+    · exact absurd (this.mpr hb) h
+
+theorem cyc01_eq (o a0 a1 b : Pt) (h0 : a0 ≠ o) (h1 : a1 ≠ o) (hb : b ≠ o) :
+    cyc o a0 b a1 = cyc01T (S3.ofInt (compareAngle o a0 a1)) (S3.ofInt (compareAngle o b a0)) (S3.ofInt (compareAngle o b a1)) := by
+  unfold cyc cyc01T
+  rw [angLt_eq o a0 b h0 hb, angLt_eq o b a1 hb h1, angLt_eq o a1 a0 h1 h0,
+    compareAngle_antisymm o b a0, compareAngle_antisymm o a0 a1]
+  have r0 := compareAngle_range o a0 a1
+  have r1 := compareAngle_range o b a0
+  have r2 := compareAngle_range o b a1
+  generalize compareAngle o a0 a1 = x at *
+  generalize compareAngle o b a0 = p0 at *
+  generalize compareAngle o b a1 = p1 at *
+  rcases r0 with h | h | h <;> subst h <;> rcases r1 with h | h | h <;> subst h <;>
+    rcases r2 with h | h | h <;> subst h <;> rfl
+
+theorem cyc10_eq (o a0 a1 b : Pt) (h0 : a0 ≠ o) (h1 : a1 ≠ o) (hb : b ≠ o) :
+    cyc o a1 b a0 = cyc10T (S3.ofInt (compareAngle o a0 a1)) (S3.ofInt (compareAngle o b a0)) (S3.ofInt (compareAngle o b a1)) := by
+  unfold cyc cyc10T
+  rw [angLt_eq o a1 b h1 hb, angLt_eq o b a0 hb h0, angLt_eq o a0 a1 h0 h1,
+    compareAngle_antisymm o b a1]
+  have r0 := compareAngle_range o a0 a1
+  have r1 := compareAngle_range o b a0
+  have r2 := compareAngle_range o b a1
+  generalize compareAngle o a0 a1 = x at *
+  generalize compareAngle o b a0 = p0 at *
+  generalize compareAngle o b a1 = p1 at *
+  rcases r0 with h | h | h <;> subst h <;> rcases r1 with h | h | h <;> subst h <;>
+    rcases r2 with h | h | h <;> subst h <;> rfl
+
+theorem compatB_actual (o a0 a1 b : Pt) (h0 : a0 ≠ o) (h1 : a1 ≠ o) (hb : b ≠ o) :
+    compatB (S3.ofInt (compareAngle o a0 a1)) (S3.ofInt (compareAngle o b a0)) (S3.ofInt (compareAngle o b a1)) = true := by
+  unfold compatB
+  have c1 := compat_actual o b a0 a1 hb h0 h1
+  have c2 := compat_actual o b a1 a0 hb h1 h0
+  have c3 := compat_actual o a0 b a1 h0 hb h1
+  rw [compareAngle_antisymm o a0 a1, ofInt_flip _ (compareAngle_range o a0 a1)] at c2
+  rw [compareAngle_antisymm o b a0, ofInt_flip _ (compareAngle_range o b a0)] at c3
+  simp [c1, c2, c3]
+
+/-- **isCrossing_iff** (Bool form): the C++ `isCrossing` equals the wedge specification `crossAt` -/
+theorem isCrossing_eq_crossAt (n a0 a1 b0 b1 : Pt) (h0 : a0 ≠ n) (h1 : a1 ≠ n) (hb0 : b0 ≠ n) (hb1 : b1 ≠ n) :
+    isCrossing n a0 a1 b0 b1 = crossAt n a0 a1 b0 b1 := by
+  rw [isCrossing_eq_crossT]
+  unfold crossAt
+  rw [cyc01_eq n a0 a1 b0 h0 h1 hb0, cyc10_eq n a0 a1 b1 h0 h1 hb1, cyc10_eq n a0 a1 b0 h0 h1 hb0, cyc01_eq n a0 a1 b1 h0 h1 hb1]
+  have k0 := compatB_actual n a0 a1 b0 h0 h1 hb0
+  have k1 := compatB_actual n a0 a1 b1 h0 h1 hb1
+  have t := S3.all_spec (S3.all_spec (S3.all_spec (S3.all_spec (S3.all_spec crossT_eq_spec
+    (S3.ofInt (compareAngle n a0 a1))) (S3.ofInt (compareAngle n b0 a0))) (S3.ofInt (compareAngle n b0 a1)))
+    (S3.ofInt (compareAngle n b1 a0))) (S3.ofInt (compareAngle n b1 a1))
+  simp only [k0, k1, Bool.and_self, Bool.not_true, Bool.false_or, beq_iff_eq] at t
+  exact t
+
+/-! ### isInteriorSegment -/
+
+/-- `isBetween` on signs -/
+def betweenT (lo hi : S3) : Bool := if !(decide (lo = .pos)) then false else !(decide (hi = .pos))
+
+/-- `isInteriorSegment` on signs (`x = cmp a0 a1`, `p0 = cmp b a0`, `p1 = cmp b a1`) -/
+def interiorT (x p0 p1 : S3) : Bool :=
+  if x = .pos then !betweenT p1 p0 else betweenT p0 p1
+
+def interiorSpecT (x p0 p1 : S3) : Bool := cyc01T x p0 p1 || (decide (p1 = .zero) && !decide (x = .zero))
+
+theorem interiorT_eq_spec : S3.all (fun x => S3.all fun p0 => S3.all fun p1 =>
+    !(compatB x p0 p1) || (interiorT x p0 p1 == interiorSpecT x p0 p1)) = true := by
+  decide
+
+theorem isBetween_eq (n b lo hi : Pt) :
+    isBetween n b lo hi = betweenT (S3.ofInt (compareAngle n b lo)) (S3.ofInt (compareAngle n b hi)) := by
+  unfold isBetween
+  simp only [isAngleGreater_eq]
+  have r1 := compareAngle_range n b lo
+  have r2 := compareAngle_range n b hi
+  generalize compareAngle n b lo = p0 at *
+  generalize compareAngle n b hi = p1 at *
+  rcases r1 with h | h | h <;> subst h <;> rcases r2 with h | h | h <;> subst h <;> rfl
+
+theorem isInteriorSegment_unfold (n a0 a1 b : Pt) :
+    isInteriorSegment n a0 a1 b = if isAngleGreater n a0 a1 then !isBetween n b a1 a0 else isBetween n b a0 a1 := by
+  unfold isInteriorSegment
+  cases isAngleGreater n a0 a1 <;> simp
+
+theorem isInteriorSegment_eq_T (n a0 a1 b : Pt) :
+    isInteriorSegment n a0 a1 b =
+      interiorT (S3.ofInt (compareAngle n a0 a1)) (S3.ofInt (compareAngle n b a0)) (S3.ofInt (compareAngle n b a1)) := by
+  rw [isInteriorSegment_unfold, isAngleGreater_eq, isBetween_eq, isBetween_eq]
+  unfold interiorT
+  rcases compareAngle_range n a0 a1 with h | h | h <;> rw [h] <;> rfl
+
+/-- the two directions are the same ray, in terms of the specification order -/
+def angEq (o p q : Pt) : Bool := !angLt o p q && !angLt o q p
+
+theorem angEq_eq (o p q : Pt) (hp : p ≠ o) (hq : q ≠ o) : angEq o p q = decide (compareAngle o p q = 0) := by
+  unfold angEq
+  rw [angLt_eq o p q hp hq, angLt_eq o q p hq hp, compareAngle_antisymm o p q]
+  rcases compareAngle_range o p q with h | h | h <;> rw [h] <;> rfl
+
+/-- specification of "the segment `o → b` points into the sweep from `a0` (exclusive) counter-clockwise to `a1` (inclusive)" -/
+def interiorAt (o a0 a1 b : Pt) : Bool := cyc o a0 b a1 || (angEq o b a1 && !angEq o a0 a1)
+
+theorem isInteriorSegment_eq_interiorAt (n a0 a1 b : Pt) (h0 : a0 ≠ n) (h1 : a1 ≠ n) (hb : b ≠ n) :
+    isInteriorSegment n a0 a1 b = interiorAt n a0 a1 b := by
+  rw [isInteriorSegment_eq_T]
+  unfold interiorAt
+  rw [cyc01_eq n a0 a1 b h0 h1 hb, angEq_eq n b a1 hb h1, angEq_eq n a0 a1 h0 h1]
+  have k0 := compatB_actual n a0 a1 b h0 h1 hb
+  have t := S3.all_spec (S3.all_spec (S3.all_spec interiorT_eq_spec
+    (S3.ofInt (compareAngle n a0 a1))) (S3.ofInt (compareAngle n b a0))) (S3.ofInt (compareAngle n b a1))
+  simp only [k0, Bool.not_true, Bool.false_or, beq_iff_eq] at t
+  rw [t]; unfold interiorSpecT
+  rcases compareAngle_range n a0 a1 with h | h | h <;> rcases compareAngle_range n b a1 with h' | h' | h' <;>
+    rw [h, h'] <;> rfl
+
+/-! ### `compareAngle = 0` is "same ray" -/
+
+theorem sameDir_iff (o p q : Pt) : sameDir o p q = true ↔ (det o p q = 0 ∧ dot o p q > 0) := by
+  unfold sameDir; simp
+
+theorem normSq_pos (x y : Int) (h : x ≠ 0 ∨ y ≠ 0) : 0 < x * x + y * y := by
+  rcases h with h | h
+  · have := mul_self_pos.mpr h; have := mul_self_nonneg y; linarith
+  · have := mul_self_pos.mpr h; have := mul_self_nonneg x; linarith
+
+theorem sign_mul_pos (x n : Int) (hn : 0 < n) : (0 < x * n ↔ 0 < x) ∧ (x * n < 0 ↔ x < 0) ∧ (x * n = 0 ↔ x = 0) := by
+  have s := mulSign x n
+  refine ⟨⟨fun h => ?_, fun h => s.1 h hn⟩, ⟨fun h => ?_, fun h => s.2.2.1 h hn⟩, ⟨fun h => ?_, fun h => s.2.2.2.2.1 h⟩⟩
+  · rcases lt_trichotomy x 0 with hx | hx | hx
+    · have := s.2.2.1 hx hn; omega
+    · have := s.2.2.2.2.1 hx; omega
+    · exact hx
+  · rcases lt_trichotomy x 0 with hx | hx | hx
+    · exact hx
+    · have := s.2.2.2.2.1 hx; omega
+    · have := s.1 hx hn; omega
+  · rcases lt_trichotomy x 0 with hx | hx | hx
+    · have := s.2.2.1 hx hn; omega
+    · exact hx
+    · have := s.1 hx hn; omega
+
+/-- collinear non-zero vectors: the sign of the dot product says whether the coordinates have equal or opposite signs -/
+theorem collinear_signs (px py qx qy : Int) (hp : px ≠ 0 ∨ py ≠ 0) (hq : qx ≠ 0 ∨ qy ≠ 0)
+    (hd : qx * py - qy * px = 0) :
+    (0 < px * qx + py * qy ∧ (0 < qx ↔ 0 < px) ∧ (qx < 0 ↔ px < 0) ∧ (0 < qy ↔ 0 < py) ∧ (qy < 0 ↔ py < 0)) ∨
+    (px * qx + py * qy < 0 ∧ (0 < qx ↔ px < 0) ∧ (qx < 0 ↔ 0 < px) ∧ (0 < qy ↔ py < 0) ∧ (qy < 0 ↔ 0 < py)) := by
+  have hN := normSq_pos px py hp
+  have hM := normSq_pos qx qy hq
+  have i1 : qx * (px * px + py * py) = (px * qx + py * qy) * px + py * (qx * py - qy * px) := by ring
+  have i2 : qy * (px * px + py * py) = (px * qx + py * qy) * py - px * (qx * py - qy * px) := by ring
+  have lag : (qx * py - qy * px) * (qx * py - qy * px) + (px * qx + py * qy) * (px * qx + py * qy) =
+      (px * px + py * py) * (qx * qx + qy * qy) := by ring
+  rw [hd] at i1 i2 lag
+  simp only [Int.mul_zero, Int.add_zero, Int.sub_zero, Int.zero_add] at i1 i2 lag
+  have hpos := Int.mul_pos hN hM
+  have a1 := sign_mul_pos qx _ hN
+  have a2 := sign_mul_pos qy _ hN
+  rcases lt_trichotomy (px * qx + py * qy) 0 with hdot | hdot | hdot
+  · right
+    have b1 := sign_mul_pos px (-(px * qx + py * qy)) (by omega)
+    have b2 := sign_mul_pos py (-(px * qx + py * qy)) (by omega)
+    have e1 : px * -(px * qx + py * qy) = -(qx * (px * px + py * py)) := by rw [i1]; ring
+    have e2 : py * -(px * qx + py * qy) = -(qy * (px * px + py * py)) := by rw [i2]; ring
+    rw [e1] at b1; rw [e2] at b2
+    generalize qx * (px * px + py * py) = M1 at *
+    generalize qy * (px * px + py * py) = M2 at *
+    refine ⟨hdot, ?_, ?_, ?_, ?_⟩ <;> omega
+  · rw [hdot] at lag; simp at lag; omega
+  · left
+    have b1 := sign_mul_pos px _ hdot
+    have b2 := sign_mul_pos py _ hdot
+    have e1 : px * (px * qx + py * qy) = qx * (px * px + py * py) := by rw [i1]; ring
+    have e2 : py * (px * qx + py * qy) = qy * (px * px + py * py) := by rw [i2]; ring
+    rw [e1] at b1; rw [e2] at b2
+    generalize qx * (px * px + py * py) = M1 at *
+    generalize qy * (px * px + py * py) = M2 at *
+    refine ⟨hdot, ?_, ?_, ?_, ?_⟩ <;> omega
+
+/-- `compareAngle o p q = 0` exactly when `p` and `q` are on the same ray from `o` -/
+theorem compareAngle_eq_zero_iff (o p q : Pt) (hp : p ≠ o) (hq : q ≠ o) :
+    compareAngle o p q = 0 ↔ sameDir o p q = true := by
+  rw [compareAngle_eq_zero, sameDir_iff]
+  rw [ne_iff_vec] at hp hq
+  have hd1 : det o q p = (q.x - o.x) * (p.y - o.y) - (q.y - o.y) * (p.x - o.x) := rfl
+  have hd2 : det o p q = -det o q p := by rw [det_swap23]
+  have hd3 : dot o p q = (p.x - o.x) * (q.x - o.x) + (p.y - o.y) * (q.y - o.y) := rfl
+  unfold quadrant
+  constructor
+  · rintro ⟨hq', hz⟩
+    refine ⟨by omega, ?_⟩
+    rw [hd1] at hz
+    rcases collinear_signs _ _ _ _ hp hq hz with ⟨h, _⟩ | ⟨h, k1, k2, k3, k4⟩
+    · rw [hd3]; exact h
+    · exfalso
+      revert hq'
+      rcases quadrantD_cases (p.x - o.x) (p.y - o.y) with ⟨h1, h2, h3⟩ | ⟨h1, h2, h3⟩ | ⟨h1, h2, h3⟩ | ⟨h1, h2, h3⟩ <;>
+      rcases quadrantD_cases (q.x - o.x) (q.y - o.y) with ⟨l1, l2, l3⟩ | ⟨l1, l2, l3⟩ | ⟨l1, l2, l3⟩ | ⟨l1, l2, l3⟩ <;>
+      rw [h3, l3] <;> omega
+  · rintro ⟨hz, hdot⟩
+    have hz' : det o q p = 0 := by omega
+    refine ⟨?_, hz'⟩
+    rw [hd1] at hz'
+    rw [hd3] at hdot
+    rcases collinear_signs _ _ _ _ hp hq hz' with ⟨_, k1, k2, k3, k4⟩ | ⟨h, _⟩
+    · rcases quadrantD_cases (p.x - o.x) (p.y - o.y) with ⟨h1, h2, h3⟩ | ⟨h1, h2, h3⟩ | ⟨h1, h2, h3⟩ | ⟨h1, h2, h3⟩ <;>
+      rcases quadrantD_cases (q.x - o.x) (q.y - o.y) with ⟨l1, l2, l3⟩ | ⟨l1, l2, l3⟩ | ⟨l1, l2, l3⟩ | ⟨l1, l2, l3⟩ <;>
+      rw [h3, l3] <;> omega
+    · omega
 
 end GeosModel.Valid
